@@ -654,8 +654,8 @@ class RestrictedSelectiveAttackActor(AttackActorBaseComponent):
                 # Agent has chosen to attack. We remove the "no attack" option
                 # and then unravel the number to get the cell that is attacked.
                 raveled_cell -= 1
-                r = raveled_cell % (2 * agent.attack_range + 1)
-                c = int(raveled_cell / (2 * agent.attack_range + 1))
+                r = int(raveled_cell / (2 * agent.attack_range + 1))
+                c = raveled_cell % (2 * agent.attack_range + 1)
                 attackable_agents = []
                 if mask[r, c]: # We can see this cell
                     candidate_agents = local_grid[r, c]
